@@ -20,6 +20,10 @@ import (
 type c01SockPlan struct {
 	Proto string   `json:"proto"`
 	Items []string `json:"items"`
+	// tcp: the stream is written in segments of these lengths (cycled; empty = one write per item), with a
+	// pause between segments, so that a frame can be only partly there when the receiver reads its body
+	Cuts    []int `json:"cuts,omitempty"`
+	PauseUs int   `json:"pause_us,omitempty"`
 }
 
 func markerFrame(k int) []byte {
@@ -147,6 +151,7 @@ func c01TCP(p c01SockPlan) *common.Fail {
 	defer pc.Close()
 	var want []knxnet.Service
 	broken := false
+	var stream []byte
 	for _, h := range p.Items {
 		b := unhex(h)
 		if broken {
@@ -154,7 +159,7 @@ func c01TCP(p c01SockPlan) *common.Fail {
 		}
 		if !framingOK(b) {
 			broken = true
-			pc.Write(b)
+			stream = append(stream, b...)
 			break
 		}
 		if s, ok := wellFormed(b); ok {
@@ -163,12 +168,35 @@ func c01TCP(p c01SockPlan) *common.Fail {
 			}
 			want = append(want, s)
 		}
-		pc.Write(b)
+		stream = append(stream, b...)
 	}
 	if !broken {
 		// terminate the stream with a marker so that "everything before it was processed" is observable
-		pc.Write(markerFrame(1))
+		stream = append(stream, markerFrame(1)...)
 	}
+	if tc, ok := pc.(*net.TCPConn); ok {
+		tc.SetNoDelay(true)
+	}
+	wrote := make(chan struct{})
+	go func() {
+		defer close(wrote)
+		rest := stream
+		for k := 0; len(rest) > 0; k++ {
+			n := len(rest)
+			if len(p.Cuts) > 0 {
+				if c := p.Cuts[k%len(p.Cuts)]; c > 0 && c < n {
+					n = c
+				}
+			}
+			if _, err := pc.Write(rest[:n]); err != nil {
+				return
+			}
+			rest = rest[n:]
+			if p.PauseUs > 0 && len(rest) > 0 {
+				time.Sleep(time.Duration(p.PauseUs) * time.Microsecond)
+			}
+		}
+	}()
 	var got []knxnet.Service
 	tm := time.NewTimer(limit)
 	defer tm.Stop()
@@ -176,7 +204,7 @@ func c01TCP(p c01SockPlan) *common.Fail {
 	peerClosed := false
 	if broken {
 		// after broken framing the connection may legitimately end; give the receiver a moment, then close our side
-		go func() { time.Sleep(30 * time.Millisecond); pc.Close() }()
+		go func() { <-wrote; time.Sleep(30 * time.Millisecond); pc.Close() }()
 		peerClosed = true
 	}
 loop:
@@ -270,6 +298,15 @@ func genPlanC01Sock(rt *rapid.T) c01SockPlan {
 			b = mutateFrame(rt, b, lens, p.Proto == "tcp")
 		}
 		p.Items = append(p.Items, hex.EncodeToString(b))
+	}
+	if p.Proto == "tcp" && rapid.Bool().Draw(rt, "segmented") {
+		for i := 0; i < rapid.IntRange(1, 5).Draw(rt, "ncuts"); i++ {
+			p.Cuts = append(p.Cuts, rapid.IntRange(1, 40).Draw(rt, "seg"))
+		}
+		p.PauseUs = rapid.SampledFrom([]int{0, 30, 300}).Draw(rt, "seg-pause")
+		if len(p.Items) > 12 {
+			p.PauseUs = rapid.SampledFrom([]int{0, 30}).Draw(rt, "seg-pause-long")
+		}
 	}
 	if p.Proto == "tcp" && rapid.IntRange(0, 2).Draw(rt, "break") == 0 {
 		// a last item that breaks the framing: bad header octets or a total length that lies
